@@ -37,10 +37,11 @@ theorem C09_order_c (fuel : Nat) (S S' : Schema) (p : SchemaPerm S S') :
 
 /-- beyond the property's list: the C++ plug-in's check set (a `service` check added to the
 plug-in with fix 35b0f7d, so that "accepted" means the rpc layer can be generated: service and
-method ids in 0..255, unique ids and names, payloads that are declared structs), as an iff and
+method ids in 0..255, unique ids and names, payloads that are declared structs; and a `field`
+check added with fix 6f85ba7: integer fields of 1 to 64 bits), as an iff and
 invariant under declaration order like the other sets -/
 theorem C09_cpp (fuel : Nat) (S : Schema) :
-    verifyModel .cpp fuel S = .ok () ↔ WellFormed S ∧ CppOk S := verify_iff_cpp fuel S
+    verifyModel .cpp fuel S = .ok () ↔ WellFormed S ∧ WidthsOk S ∧ CppOk S := verify_iff_cpp fuel S
 
 theorem C09_order_cpp (fuel : Nat) (S S' : Schema) (p : SchemaPerm S S') :
     (verifyModel .cpp fuel S = .ok ()) ↔ (verifyModel .cpp fuel S' = .ok ()) :=
